@@ -87,6 +87,9 @@ def classify(args):
 
     set_quiet(args.quiet, args.debug)
 
+    if args.scaled:
+        args.scaled = int(args.scaled)
+
     # flatten --db and --query
     args.db = [item for sublist in args.db for item in sublist]
     args.query = [item for sublist in args.query for item in sublist]
